@@ -389,4 +389,23 @@ theorem expectedTextN_eq_truncateTo (n : Nat) (hn : 3 ≤ n) {s : Bytes} (hs : u
     · simp [List.find?, hval, hmax n (by omega) (by omega), hmax (n - 1) (by omega) (by omega),
         hmax (n - 2) (by omega) (by omega)]
 
+/-- the declarative demand has at most one answer -/
+theorem isLongestValidPrefix_unique {n : Nat} {s t t' : Bytes} (h : IsLongestValidPrefix n s t)
+    (h' : IsLongestValidPrefix n s t') : t = t' := by
+  obtain ⟨hp, hn, hv, hmax⟩ := h
+  obtain ⟨hp', hn', hv', hmax'⟩ := h'
+  have h1 := hmax t' hp' hn' hv'
+  have h2 := hmax' t hp hn hv
+  rw [List.prefix_iff_eq_take.mp hp, List.prefix_iff_eq_take.mp hp', show t.length = t'.length by omega]
+
+/-- the cut is the longest well-formed prefix of at most `n` bytes -/
+theorem truncateTo_isLongest (n : Nat) {s : Bytes} (hs : utf8Valid s = true) :
+    IsLongestValidPrefix n s (truncateTo n s) := by
+  refine ⟨truncateTo_prefix n s, truncateTo_length_le n s, truncateTo_valid n hs, ?_⟩
+  intro p hp hpn hv
+  apply Nat.le_of_not_lt
+  intro hlt
+  rw [truncateTo_maximal n hs p hp hpn hlt] at hv
+  exact absurd hv (by simp)
+
 end S3V.EvStreamThm
